@@ -1,5 +1,6 @@
 """C16 -- FSS equals the sliding-window definition and aggregates by components."""
 import itertools
+import math
 from fractions import Fraction
 
 import numpy as np
@@ -25,6 +26,7 @@ TECHNIQUE = "Coq proof about a code-faithful summed-area-table model + exhaustiv
 SITES = []
 RULE = ("single fields: every shape HxW <= bound (5x5 thorough, 4x4 quick) x every window 1..H x 1..W x both paddings x k random binary "
         "fields (event density drawn from {0.2,0.5,0.8}, occasionally all-zero / all-one / identical pairs), value fields on the grid k/2 "
+        "(also integer-dtype and mixed integer/float fields with fractional thresholds) "
         "with NaN cells, thresholds on the grid and the four numpy comparison operators; multi-field arrays: 0-2 extra dims on fcst/obs "
         "(random overlap, broadcast, labels of shared extra dims stored in independently shuffled order), random reduce/preserve spelling, both paddings; fss_2d_binary on bool and 0/1 float fields. A case is "
         "distinct by (function, fields, threshold, operator, window, padding, request) and non-trivial when some field contains an event")
@@ -93,14 +95,61 @@ def judge_array(ctx, what, desc, impl, sat_t, spec_t, pad, wh, ww):
     return "violation"
 
 
+def no_model(ctx):
+    return getattr(ctx, "no_model", False)
+
+
+def py_fss(f, o, th, op, wh, ww, pad, code):
+    t = py_sums(f, o, th, op, wh, ww, pad, code)
+    if isinstance(t, str):
+        return t
+    sf, so, sd = t
+    return Fraction(0) if sf + so == 0 else 1 - Fraction(sd, sf + so)
+
+
+def py_sums(f, o, th, op, wh, ww, pad, code):
+    """the sliding-window definition evaluated directly in exact Python rationals (code=True: the window positions the recorded
+    finding uses, top-left corners -floor(w/2)..n-floor(w/2)); used only when the extracted model cannot be built (run_without_model)"""
+    f, o = np.asarray(f), np.asarray(o)
+    if f.shape != o.shape or f.ndim != 2:
+        return "err:ValueError"
+    H, W = f.shape
+    if wh > H or ww > W or wh < 1 or ww < 1:
+        return "err:ValueError"
+    cmp = {"gt": lambda v: v > th, "ge": lambda v: v >= th, "lt": lambda v: v < th, "le": lambda v: v <= th}[op]
+
+    def binar(a):
+        return [[0 if (isinstance(x, float) and math.isnan(x)) else int(cmp(Fraction(x))) for x in row] for row in a.tolist()]
+    bf, bo = binar(f), binar(o)
+    hh, hw = (wh // 2, ww // 2) if pad else (0, 0)
+    nr = (H + 1 if code else H + 2 * hh - wh + 1) if pad else H - wh + 1
+    nc = (W + 1 if code else W + 2 * hw - ww + 1) if pad else W - ww + 1
+
+    def win(b, r, c):
+        return sum(b[i][j] for i in range(max(r - hh, 0), min(r - hh + wh, H)) for j in range(max(c - hw, 0), min(c - hw + ww, W)))
+    sf = so = sd = 0
+    for r in range(nr):
+        for c in range(nc):
+            a, b = win(bf, r, c), win(bo, r, c)
+            sf, so, sd = sf + a * a, so + b * b, sd + (a - b) ** 2
+    return sf, so, sd
+
+
+def model_single(ctx, f, o, th, op, wh, ww, pad):
+    if no_model(ctx):
+        return py_fss(f, o, th, op, wh, ww, pad, True), py_fss(f, o, th, op, wh, ww, pad, False)
+    m = ctx.model("c16_single", enc_list([enc_rows(f), enc_rows(o), enc_num(th), enc_str(op), str(wh), str(ww), enc_bool(pad)]))
+    return num_or_err(m[0]), num_or_err(m[1])
+
+
 def single_case(ctx, S, f, o, th, op, wh, ww, pad, sample=False):
     kw = dict(event_threshold=float(th), window_size=(wh, ww), zero_padding=pad)
     if op != "gt" or ctx.rng.random() < 0.5:
         kw["threshold_operator"] = np_op(op)
     impl = core.call_impl(S.spatial.fss_2d_single_field, f, o, **kw)
-    m = ctx.model("c16_single", enc_list([enc_rows(f), enc_rows(o), enc_num(th), enc_str(op), str(wh), str(ww), enc_bool(pad)]))
-    sat, spec = num_or_err(m[0]), num_or_err(m[1])
-    desc = {"fn": "fss_2d_single_field", "fcst": np.asarray(f).tolist(), "obs": np.asarray(o).tolist(), "event_threshold": th,
+    sat, spec = model_single(ctx, f, o, th, op, wh, ww, pad)
+    desc = {"fn": "fss_2d_single_field", "fcst": np.asarray(f).tolist(), "obs": np.asarray(o).tolist(),
+            "fcst_dtype": str(np.asarray(f).dtype), "obs_dtype": str(np.asarray(o).dtype), "event_threshold": th,
             "operator": op, "window_size": [wh, ww], "zero_padding": pad}
     events = bool(np_op(op)(f, float(th)).any() or np_op(op)(o, float(th)).any()) if impl[0] == "ok" else False
     ctx.case(desc, events)
@@ -197,6 +246,21 @@ def thresholds_and_nan(ctx, S, n):
         f, o = rand_values(rng, H, W, nan_p), rand_values(rng, H, W, nan_p)
         th = Fraction(rng.randint(-4, 4), 2)
         op = rng.choice(OPS)
+        dmode = rng.random()
+        if dmode < 0.4:
+            # integer-dtype forecast (obs integer or float on the finer grid k/4) with a fractional threshold: the comparison must be
+            # made against the threshold as given, not against one converted to the data's dtype
+            nan_p = 0.0
+            f = np.array([[rng.randint(-3, 3) for _ in range(W)] for _ in range(H)], dtype=rng.choice([np.int64, np.int32]))
+            if dmode < 0.2:
+                o = np.array([[rng.randint(-3, 3) for _ in range(W)] for _ in range(H)], dtype=np.int64)
+                ctx.count("dtype:int/int")
+            else:
+                o = np.array([[rng.randint(-12, 12) / 4.0 for _ in range(W)] for _ in range(H)])
+                if rng.random() < 0.5:
+                    f, o = o, f
+                ctx.count("dtype:int/float")
+            th = Fraction(2 * rng.randint(-3, 2) + 1, 2) if rng.random() < 0.7 else Fraction(rng.randint(-10, 10), 4)
         wh, ww = rng.randint(1, H), rng.randint(1, W)
         pad = rng.random() < 0.5
         impl, sat, spec = single_case(ctx, S, f, o, th, op, wh, ww, pad, sample=(i == 0))
@@ -246,6 +310,8 @@ def malformed_single(ctx, S, n):
                 ww = 0
         elif kind == "wneg":
             wh = -rng.randint(1, 2)
+        elif no_model(ctx):
+            continue
         else:
             # an operator outside utils.NumpyThresholdOperator.valid_ops
             pad = rng.random() < 0.5
@@ -282,6 +348,12 @@ def gen_multi(ctx, binary=False):
             da = gens.rand_da(rng, sizes, dims=dims, shuffle=True, den=2, bound=2, nan_p=nan_p)
         return da.sortby("x").sortby("y")
     fcst, obs = mk(fd), mk(od)
+    if not binary and rng.random() < 0.25:
+        # integer-dtype fields (thresholds are fractional in half of the cases)
+        if not bool(np.isnan(fcst.values).any()):
+            fcst = np.floor(fcst).astype(np.int64)
+        if rng.random() < 0.5 and not bool(np.isnan(obs.values).any()):
+            obs = np.floor(obs).astype(np.int64)
     if rng.random() < 0.1 and set(fcst.dims) == set(obs.dims):
         obs = fcst.transpose(*obs.dims).copy()
         for d in obs.dims:
@@ -324,7 +396,8 @@ def multi_cases(ctx, S, n):
         impl = core.call_impl(S.spatial.fss_2d, fcst, obs, **kw)
         m = ctx.model("c16_fss2d", enc_list([enc_arr(fcst), enc_arr(obs), enc_num(th), enc_str(op), str(wh), str(ww),
                                              enc_list([enc_str(s) for s in sp]), enc_bool(pad), enc_dimspec(rd), enc_dimspec(pd)]))
-        desc = {"fn": "fss_2d", "fcst": gens.da_repr(fcst), "obs": gens.da_repr(obs), "event_threshold": th, "operator": op, "window_size": [wh, ww],
+        desc = {"fn": "fss_2d", "fcst": gens.da_repr(fcst), "obs": gens.da_repr(obs), "fcst_dtype": str(fcst.dtype), "obs_dtype": str(obs.dtype),
+                "event_threshold": th, "operator": op, "window_size": [wh, ww],
                 "spatial_dims": list(sp), "zero_padding": pad, "reduce_dims": rd, "preserve_dims": pd}
         ctx.case(desc, impl[0] == "ok")
         if i < 2:
@@ -351,13 +424,14 @@ def binary_cases(ctx, S, n):
         if pd is not None:
             kw["preserve_dims"] = pd
         impl = core.call_impl(S.spatial.fss_2d_binary, fb, ob, **kw)
-        m = ctx.model("c16_binary", enc_list([enc_arr(fcst), enc_arr(obs), enc_bool(as_bool), enc_bool(check), str(wh), str(ww),
-                                              enc_list([enc_str("x"), enc_str("y")]), enc_bool(pad), enc_dimspec(rd), enc_dimspec(pd)]))
+        m = None if no_model(ctx) else ctx.model("c16_binary", enc_list([enc_arr(fcst), enc_arr(obs), enc_bool(as_bool), enc_bool(check), str(wh), str(ww),
+                                                                       enc_list([enc_str("x"), enc_str("y")]), enc_bool(pad), enc_dimspec(rd), enc_dimspec(pd)]))
         desc = {"fn": "fss_2d_binary", "fcst": gens.da_repr(fcst), "obs": gens.da_repr(obs), "bool_dtype": as_bool, "check_boolean": check,
                 "window_size": [wh, ww], "zero_padding": pad, "reduce_dims": rd, "preserve_dims": pd}
         ctx.case(desc, impl[0] == "ok")
-        v = judge_array(ctx, "fss_2d_binary", desc, impl, m[0], m[1], pad, wh, ww)
-        ctx.count("binary:" + v)
+        if m is not None:
+            v = judge_array(ctx, "fss_2d_binary", desc, impl, m[0], m[1], pad, wh, ww)
+            ctx.count("binary:" + v)
         # the binary entry point agrees with thresholding the same 0/1 field at 0.5
         if impl[0] == "ok":
             kw2 = {k: v_ for k, v_ in kw.items() if k != "check_boolean"}
@@ -379,6 +453,8 @@ def aggregation_cases(ctx, S, n):
         T, H, W = rng.randint(2, 4), rng.randint(2, 4), rng.randint(2, 4)
         f = xr.DataArray(np.array([rand_binary(rng, H, W) for _ in range(T)]), dims=["t", "x", "y"])
         o = xr.DataArray(np.array([rand_binary(rng, H, W) for _ in range(T)]), dims=["t", "x", "y"])
+        if rng.random() < 0.4:
+            (f if rng.random() < 0.5 else o).values[rng.randrange(T)] = 0.0      # one field without any event on one side
         wh, ww = rng.randint(1, H), rng.randint(1, W)
         pad = rng.random() < 0.3
         kw = dict(event_threshold=0.5, window_size=(wh, ww), spatial_dims=("x", "y"), zero_padding=pad)
@@ -392,7 +468,18 @@ def aggregation_cases(ctx, S, n):
                                                              threshold_operator=NumpyThresholdOperator(np.greater))
             c = be.compute_fss_decomposed()
             comps.append([Fraction(float(c[k])) for k in range(3)])
-        m = core.dec_num(ctx.model("c16_aggregate", enc_list([enc_list([enc_list([enc_num(x) for x in c]) for c in comps])])))
+        if no_model(ctx):
+            # independent of the backend: the three sums of every field by direct counting, added up over the fields
+            def py_agg(code):
+                tot = [sum(x) for x in zip(*[py_sums(f.values[t], o.values[t], Fraction(1, 2), "gt", wh, ww, pad, code) for t in range(T)])]
+                return Fraction(0) if tot[0] + tot[1] == 0 else 1 - Fraction(tot[2], tot[0] + tot[1])
+            m = py_agg(False)
+            if in_finding(pad, wh, ww) and agg[0] == "ok" and not core.close(float(agg[1]), m) and core.close(float(agg[1]), py_agg(True)):
+                ctx.violation("multi-field FSS differs from the sliding-window definition (zero padding, odd window)", {"fn": "fss_2d(reduce t)"}, m,
+                              float(agg[1]), finding_key=FINDING)
+                continue
+        else:
+            m = core.dec_num(ctx.model("c16_aggregate", enc_list([enc_list([enc_list([enc_num(x) for x in c]) for c in comps])])))
         desc = {"fn": "fss_2d(reduce t)", "fcst": f.values.tolist(), "obs": o.values.tolist(), "window_size": [wh, ww], "zero_padding": pad}
         ctx.case(desc)
         if agg[0] != "ok" or not core.close(float(agg[1]), m):
@@ -403,6 +490,55 @@ def aggregation_cases(ctx, S, n):
     ctx.count("aggregate:differs_from_mean_of_scores", differs)
 
 
+def multi_relations(ctx, S, n):
+    """fss_2d with every extra dimension preserved equals fss_2d_single_field on each label-aligned 2-D slice (needs no model)"""
+    rng = ctx.rng
+    for _ in range(n):
+        if not ctx.time_left():
+            return
+        fcst, obs, wh, ww, pad, rd, pd = gen_multi(ctx)
+        th, op = Fraction(rng.randint(-2, 2), 2), rng.choice(OPS)
+        fa, oa = xr.broadcast(*xr.align(fcst, obs, join="inner"))
+        extra = [d for d in fa.dims if d not in ("x", "y")]
+        fa, oa = fa.transpose(*extra, "x", "y"), oa.transpose(*extra, "x", "y")
+        kw = dict(event_threshold=float(th), window_size=(wh, ww), zero_padding=pad, threshold_operator=np_op(op))
+        impl = core.call_impl(S.spatial.fss_2d, fcst, obs, spatial_dims=("x", "y"), preserve_dims=extra, **kw)
+        desc = {"fn": "fss_2d", "fcst": gens.da_repr(fcst), "obs": gens.da_repr(obs), "fcst_dtype": str(fcst.dtype), "obs_dtype": str(obs.dtype),
+                "event_threshold": th, "operator": op, "window_size": [wh, ww], "spatial_dims": ["x", "y"], "zero_padding": pad,
+                "reduce_dims": None, "preserve_dims": extra}
+        ctx.case(desc, impl[0] == "ok")
+        if impl[0] != "ok":
+            ctx.violation("fss_2d raises on a valid input", desc, "values", impl[1])
+            continue
+        res = impl[1].transpose(*extra)
+        for idx in itertools.product(*[range(fa.sizes[d]) for d in extra]):
+            sel = dict(zip(extra, idx))
+            one = core.call_impl(S.spatial.fss_2d_single_field, fa.isel(sel).values, oa.isel(sel).values, **kw)
+            lab = {d: fa[d].values[i] for d, i in sel.items()}
+            got = float(res.sel(lab)) if extra else float(res)
+            if one[0] != "ok" or abs(float(one[1]) - got) > 1e-9:
+                ctx.violation("fss_2d with all extra dims preserved differs from fss_2d_single_field on the slice", dict(desc, slice=str(lab)),
+                              str(one[1]), got)
+        ctx.count("multi:per_slice_relation")
+
+
+def run_without_model(ctx):
+    """the extracted model is unavailable: the same predicates with the sliding-window definition evaluated directly in exact Python
+    rationals, plus the relations between the public entry points"""
+    import scores as S
+    import scores.spatial  # noqa: F401
+    ctx.no_model = True
+    thorough = ctx.tier == "thorough"
+    known_reproduction(ctx, S)
+    tiny_all_fields(ctx, S, 4 if thorough else 3)
+    exhaustive_single(ctx, S, 5 if thorough else 4, ctx.n(2, 10))
+    thresholds_and_nan(ctx, S, ctx.n(400, 4000))
+    malformed_single(ctx, S, ctx.n(30, 200))
+    multi_relations(ctx, S, ctx.n(150, 2000))
+    binary_cases(ctx, S, ctx.n(100, 1500))
+    aggregation_cases(ctx, S, ctx.n(60, 600))
+
+
 def replay(ctx, rec):
     import scores as S
     import scores.spatial  # noqa: F401
@@ -410,13 +546,17 @@ def replay(ctx, rec):
     c = v.get("case") or {}
     fn = c.get("fn")
     if fn == "fss_2d_single_field":
-        f = np.array([[float(x) for x in r] for r in c["fcst"]], dtype=float)
-        o = np.array([[float(x) for x in r] for r in c["obs"]], dtype=float)
+        f = np.array([[float(x) for x in r] for r in c["fcst"]], dtype=float).astype(c.get("fcst_dtype", "float64"))
+        o = np.array([[float(x) for x in r] for r in c["obs"]], dtype=float).astype(c.get("obs_dtype", "float64"))
         wh, ww = c["window_size"]
         single_case(ctx, S, f, o, Fraction(c["event_threshold"]), c["operator"], int(wh), int(ww), bool(c["zero_padding"]))
         return
     if fn in ("fss_2d", "fss_2d_binary"):
         fcst, obs = gens.da_from_repr(c["fcst"]), gens.da_from_repr(c["obs"])
+        if "int" in c.get("fcst_dtype", ""):
+            fcst = fcst.astype(c["fcst_dtype"])
+        if "int" in c.get("obs_dtype", ""):
+            obs = obs.astype(c["obs_dtype"])
         wh, ww = c["window_size"]
         pad, rd, pd = bool(c["zero_padding"]), c.get("reduce_dims"), c.get("preserve_dims")
         kw = dict(window_size=(wh, ww), zero_padding=pad)
